@@ -1,11 +1,13 @@
 import Mathlib.Tactic.Ring
 import Mathlib.Tactic.Abel
 import Mathlib.Tactic.Linarith
+import Mathlib.Tactic.IntervalCases
 import Mathlib.Algebra.BigOperators.Group.List.Basic
 import Mathlib.Algebra.Group.Hom.Defs
 import Mathlib.Algebra.Module.Basic
 import Mathlib.Data.ZMod.Basic
 import MidnightZK.Model.C13.Engine
+import MidnightZK.Model.C13.Tower
 /-!
 The abstract pairing (bilinearity and non-degeneracy are *fields*, i.e. hypotheses about blst's and
 the BN254 code's Miller loop + final exponentiation) and the lemmas about the list-level code around
@@ -203,6 +205,55 @@ theorem bitsVal_drop_one (bytes : List Nat) (h0 : ∀ b rest, bytes = b :: rest 
     rfl
 
 end GtMul
+
+/-! ## `powBits` is exponentiation -/
+section PowBits
+variable {γ : Type} [Monoid γ]
+
+theorem bitsVal_testBits : ∀ (n e : Nat), e < 2 ^ n →
+    bitsVal ((List.range n).reverse.map (fun i => e.testBit i)) = e := by
+  intro n
+  induction n with
+  | zero => intro e he; simp at he; subst he; rfl
+  | succ n ih =>
+    intro e he
+    rw [List.range_succ, List.reverse_append, List.reverse_singleton, List.singleton_append,
+      List.map_cons]
+    unfold bitsVal
+    rw [List.foldl_cons, foldl_bits_lin]
+    have hmap : (List.range n).reverse.map (fun i => e.testBit i)
+        = (List.range n).reverse.map (fun i => (e % 2 ^ n).testBit i) := by
+      apply List.map_congr_left
+      intro i hi
+      have hi' : i < n := by simpa using hi
+      simp [Nat.testBit_mod_two_pow, hi']
+    have ih' := ih (e % 2 ^ n) (Nat.mod_lt _ (Nat.two_pow_pos n))
+    unfold bitsVal at ih'
+    rw [hmap, ih']
+    simp only [List.length_map, List.length_reverse, List.length_range, Nat.testBit_eq_decide_div_mod_eq]
+    have hq : e / 2 ^ n < 2 := by
+      rw [Nat.div_lt_iff_lt_mul (Nat.two_pow_pos n)]
+      calc e < 2 ^ (n + 1) := he
+        _ = 2 * 2 ^ n := by rw [Nat.pow_succ]; ring
+    have hdm := Nat.div_add_mod e (2 ^ n)
+    rcases Nat.lt_succ_iff.mp hq with h
+    interval_cases hq' : e / 2 ^ n
+    · simp; omega
+    · simp; omega
+
+/-- Left-to-right square-and-multiply over the bits of `e` is `x ^ e`, in every monoid: the
+exponentiations appearing in the constant theorems and in the driver (`f^r`, `ξ^((pⁱ−1)/6)`,
+`f^((p¹²−1)/r)`) are powers in the mathematical sense. -/
+theorem powBits_eq_pow (x : γ) (e : Nat) : powBits (· * ·) 1 x e = x ^ e := by
+  unfold powBits
+  rw [foldl_dblAdd x (bitsMsb e) 1 0 (by simp)]
+  congr 1
+  unfold bitsMsb
+  split
+  · next h => subst h; rfl
+  · exact bitsVal_testBits _ e Nat.lt_log2_self
+
+end PowBits
 
 /-! ## MSM evaluation and `DualMSM::check` -/
 section Dual
